@@ -56,36 +56,42 @@ def verify_function(repo, qualname, timeout_ms=20000, cfg_symbols=(), want_model
         cfg[name] = z3.Bool(name)
     E = Engine(repo, W, REGISTRY, qualname, cfg=cfg)
     try:
-        st, bound = c.entry(E)
-        st.cfg = cfg
-        cx = CallCtx(E, st, bound)
-        E.cx = cx
-        for name, f in c.requires(cx):
-            st.assume(f)
-        cx.st = st.fork()
-        cx.objs = {k: dict(v) for k, v in st.objs.items()}
-        # vacuity guard: the precondition must not be refutable
-        E.obligations.append(Obligation(qualname, 'pre_satisfiable', st.facts, z3.BoolVal(False), st.versions,
-                                        kind='cover', expect='not-unsat'))
-        args = [bound[p] for p in fi.params]
-        kws = {k: bound[k] for k in fi.kwonly if k in bound}
-        outcomes = E.call_function(fi, args, kws, st)
-        res.paths = len(outcomes)
-        n_normal = 0
-        for s, v in outcomes:
-            if isinstance(v, Raised):
-                ex = ExitCtx(s, 'raise', v.exc)
-                kind = 'raises'
-            else:
-                ex = ExitCtx(s, 'return', v)
-                kind = 'ensures'
-                n_normal += 1
-            res.exits.append((kind, E.pathname(s), repr(v)))
-            for name, f in c.exit_obligations(E, cx, ex):
-                E.oblige(s, name, f, kind=kind)
-            # vacuity guard per exit
-            E.obligations.append(Obligation(qualname, 'exit_reachable[%s]' % E.pathname(s), s.facts, z3.BoolVal(False),
-                                            s.versions, kind='cover', path=E.pathname(s), expect='not-unsat'))
+        ent = c.entry(E)
+        variants = ent if isinstance(ent, list) else [ent]
+        for vi, (st, bound) in enumerate(variants):
+            if len(variants) > 1:
+                st.trace.append('variant%d' % vi)
+            st.cfg = cfg
+            cx = CallCtx(E, st, bound)
+            E.cx = cx
+            for name, f in c.requires(cx):
+                st.assume(f)
+            # definitional axioms of the contract's own spec functions (fresh symbols, primitive recursion)
+            for f in getattr(c, 'vocabulary', lambda cx: [])(cx):
+                st.assume(f)
+            cx.st = st.fork()
+            cx.objs = {k: dict(v) for k, v in st.objs.items()}
+            # vacuity guard: the precondition must not be refutable
+            E.obligations.append(Obligation(qualname, 'pre_satisfiable', st.facts, z3.BoolVal(False), st.versions,
+                                            kind='cover', expect='not-unsat'))
+            args = [bound[p] for p in fi.params]
+            kws = {k: bound[k] for k in fi.kwonly if k in bound}
+            E.depth = 0
+            outcomes = E.call_function(fi, args, kws, st)
+            res.paths += len(outcomes)
+            for s, v in outcomes:
+                if isinstance(v, Raised):
+                    ex = ExitCtx(s, 'raise', v.exc)
+                    kind = 'raises'
+                else:
+                    ex = ExitCtx(s, 'return', v)
+                    kind = 'ensures'
+                res.exits.append((kind, E.pathname(s), repr(v)))
+                for name, f in c.exit_obligations(E, cx, ex):
+                    E.oblige(s, name, f, kind=kind)
+                # vacuity guard per exit
+                E.obligations.append(Obligation(qualname, 'exit_reachable[%s]' % E.pathname(s), s.facts, z3.BoolVal(False),
+                                                s.versions, kind='cover', path=E.pathname(s), expect='not-unsat'))
     except ToolLimit as e:
         res.tool_limit = str(e)
         res.time = time.time() - t0
